@@ -231,6 +231,10 @@ class WebSocketResponse(StreamResponse, Generic[_DecodeText]):
         self._ping_task = None
 
     def _pong_not_received(self) -> None:
+        if self._need_heartbeat_reset:
+            # Data (e.g. the PONG) was read in this very loop iteration; the
+            # pending _flush_heartbeat_reset() re-arms the heartbeat.
+            return
         if self._req is not None and self._req.transport is not None:
             if self._req.protocol._reading_paused:
                 # We are the ones not reading (flow control): the PONG may
